@@ -61,6 +61,8 @@ type cellEnv struct {
 	opt   ssa.Value       // receiver / parameter holding the options
 	phi   map[*ssa.Phi]ssa.Value
 	fail  string
+	// set by helperCells when the helper just counted emits either nothing or the count returned
+	rowOrNothing bool
 }
 
 // flagOf: v is a load of a boolean option field (of the options parameter, possibly through
@@ -374,6 +376,21 @@ func (e *cellEnv) helperCells(fn *ssa.Function, depth int) (lin, bool) {
 	if !okAll || len(counts) == 0 {
 		return lin{}, false
 	}
+	// "a whole row or nothing": the helper builds one logical row and leaves it out on some
+	// paths — as the body of a row loop may. The caller checks that it is a whole row.
+	distinct := map[lin]bool{}
+	for _, c := range counts {
+		distinct[c] = true
+	}
+	zero := lin{}
+	if len(distinct) == 2 && distinct[zero] && depth == 0 {
+		for c := range distinct {
+			if c != zero {
+				e.rowOrNothing = true
+				return c, true
+			}
+		}
+	}
 	for _, c := range counts[1:] {
 		if c != counts[0] {
 			e.fail = fmt.Sprintf("helper %s emits %s cells on one path and %s on another", fnName(fn), counts[0], c)
@@ -491,10 +508,22 @@ func (p *Prog) accountTable(fn *ssa.Function, flags map[string]bool) *cellsResul
 			if !st.started {
 				continue
 			}
+			e.rowOrNothing = false
 			k, counts, ok := e.cellsOf(in)
 			if !ok {
 				addProblem(e.fail)
 				return
+			}
+			if counts && e.rowOrNothing {
+				// a helper that emits a whole row or nothing: fine at the start of a row of the row
+				// loop, when what it emits IS a row (anything emitted besides it in this iteration
+				// then makes the iteration too long, which the back edge reports)
+				e.rowOrNothing = false
+				zero := lin{}
+				if st.inLoop == nil || st.loopCnt != zero || k != res.n {
+					addProblem(fmt.Sprintf("a helper called at %s emits %s cells on some paths and none on others, which is not 'one whole row (%s cells) or nothing' at the start of a row", p.instrPos(in), k, res.n))
+					return
+				}
 			}
 			if counts {
 				if st.inLoop != nil {
